@@ -235,6 +235,9 @@ exprpromote(struct expr *e)
 	struct type *t;
 
 	t = typepromote(e->type, bitfieldwidth(e));
+#ifdef CPROC_VERIF
+	vtrace("{\"e\":\"prom\",\"t\":\"%s\",\"w\":%d,\"res\":\"%s\"}", vtypename(e->type), (int)bitfieldwidth(e) == -1 ? 0 : (int)bitfieldwidth(e), vtypename(t));
+#endif
 	return exprconvert(e, t);
 }
 
@@ -244,6 +247,11 @@ commonreal(struct expr **e1, struct expr **e2)
 	struct type *t;
 
 	t = typecommonreal((*e1)->type, bitfieldwidth(*e1), (*e2)->type, bitfieldwidth(*e2));
+#ifdef CPROC_VERIF
+	vtrace("{\"e\":\"ucv\",\"t1\":\"%s\",\"w1\":%d,\"t2\":\"%s\",\"w2\":%d,\"res\":\"%s\"}",
+		vtypename((*e1)->type), (int)bitfieldwidth(*e1) == -1 ? 0 : (int)bitfieldwidth(*e1),
+		vtypename((*e2)->type), (int)bitfieldwidth(*e2) == -1 ? 0 : (int)bitfieldwidth(*e2), vtypename(t));
+#endif
 	*e1 = exprconvert(*e1, t);
 	*e2 = exprconvert(*e2, t);
 
@@ -256,6 +264,11 @@ mkbinaryexpr(struct location *loc, enum tokenkind op, struct expr *l, struct exp
 	struct expr *e;
 	struct type *t = NULL;
 	enum typeprop lp, rp;
+#ifdef CPROC_VERIF
+	struct type *vlt = l->type, *vrt = r->type;
+	int vlw = (int)bitfieldwidth(l) == -1 ? 0 : (int)bitfieldwidth(l), vrw = (int)bitfieldwidth(r) == -1 ? 0 : (int)bitfieldwidth(r);
+	enum tokenkind vop = op;
+#endif
 
 	lp = l->type->prop;
 	rp = r->type->prop;
@@ -377,6 +390,10 @@ mkbinaryexpr(struct location *loc, enum tokenkind op, struct expr *l, struct exp
 	e->op = op;
 	e->u.binary.l = l;
 	e->u.binary.r = r;
+#ifdef CPROC_VERIF
+	vtrace("{\"e\":\"bin\",\"op\":\"%s\",\"lt\":\"%s\",\"lw\":%d,\"rt\":\"%s\",\"rw\":%d,\"res\":\"%s\"}",
+		tokstr[vop], vtypename(vlt), vlw, vtypename(vrt), vrw, vtypename(t));
+#endif
 
 	return e;
 }
@@ -1264,6 +1281,10 @@ condexpr(struct scope *s)
 			return NULL;  /* unreachable */
 		}
 	}
+#ifdef CPROC_VERIF
+	vtrace("{\"e\":\"cond\",\"lt\":\"%s\",\"lw\":%d,\"rt\":\"%s\",\"rw\":%d,\"lnull\":%d,\"rnull\":%d,\"res\":\"%s\"}",
+		vtypename(lt), 0, vtypename(rt), 0, nullpointer(l), nullpointer(r), vtypename(t));
+#endif
 	e = eval(e);
 	if (e->kind == EXPRCONST && e->type->prop & PROPINT)
 		return exprconvert(e->u.constant.u ? l : r, t);
